@@ -293,6 +293,38 @@ def _closers(prefix: str):
     return " " + ") " * depth
 
 
+VICTIMS = ["CREATE TABLE v1 ( a int , b int , CHECK ( a > 0 {W} b > 0 ) ) ;", "CREATE TABLE v2 ( a int CHECK ( a > 0 {W} a < 9 ) , b int ) ;",
+           "CREATE {W} REPLACE TABLE v3 ( a int ) ;", "CREATE TABLE v4 ( {W} int , b int ) ;", "CREATE TABLE v5 ( a {W} , b int ) ;",
+           "CREATE TABLE v6 ( a int ) {W} x ;", "CREATE SEQUENCE v7 {W} 1 ;"]
+POLLUTERS = ["SELECT x FROM y WHERE ( a = 1 {W} b = 2 ) ;", "CREATE VIEW w AS SELECT * FROM t WHERE ( a = 1 {W} b = 2 ) ;",
+             "CREATE TABLE p1 ( a int , {W} int ) ;", "CREATE TABLE p2 ( a int ) {W} ;", "CREATE SEQUENCE p3 {W} ;"]
+
+
+def api_pollution(word: str):
+    """A word lexed in one statement must not change how a later statement is parsed (the
+    keyword tables are module-level): victim statement alone vs after a polluting statement."""
+    from simple_ddl_parser import DDLParser
+
+    def go(ddl):
+        try:
+            return DDLParser(ddl).run()
+        except Exception as e:
+            return f"{type(e).__name__}: {e}"
+
+    for w in (word.upper(), word.lower()):
+        for v in VICTIMS:
+            victim = v.replace("{W}", w)
+            alone = go(victim)
+            for p in POLLUTERS:
+                first = p.replace("{W}", w)
+                # a fresh process state is needed per attempt: run in this order inside one interpreter only once per pair
+                both = go(first + "\n" + victim)
+                tail = both[-len(alone):] if isinstance(both, list) and isinstance(alone, list) and alone else both
+                if isinstance(alone, list) and alone and tail != alone:
+                    return {"ddl": first + "\n" + victim, "got": both, "expected_tail": alone, "reproduced": True}
+    return {"reproduced": False}
+
+
 def api_case(word_up: str, cased: str):
     """Public-API replay: some completion of `prefix word` that parses to a non-empty result
     with the upper-case spelling must give the same result with the cased spelling (modulo
@@ -317,6 +349,9 @@ def api_case(word_up: str, cased: str):
             tried.append(d_cs)
             if _fold(r_cs, cased, word_up) != _fold(r_up, cased, word_up):
                 return {"ddl": d_cs, "ddl_upper": d_up, "got": r_cs, "expected_like": r_up, "reproduced": True}
+    pol = api_pollution(word_up)
+    if pol.get("reproduced"):
+        return pol
     return {"reproduced": False, "tried": tried[:5], "note": "no completion of the context shows a difference through the public API"}
 
 
@@ -331,6 +366,22 @@ def api_c_case(wi, style, pos):
 
 
 def api_c_kw(wi, style, pos):
+    if CTX_NAME.startswith("seq_"):
+        # in a sequence statement every option keyword names its own output key
+        from simple_ddl_parser import DDLParser
+        w = restyle(VOCAB[wi], style, pos)
+        key = {"NO": "maxvalue", "BY": "increment_by", "WITH": "start_with"}.get(VOCAB[wi], VOCAB[wi].lower())
+        pre = PREFIX + (" INCREMENT" if VOCAB[wi] == "BY" else " START" if VOCAB[wi] == "WITH" else "")
+        for comp in ("", " 1", " MAXVALUE", " BY 1", " WITH 1"):
+            ddl = f"{pre} {w}{comp} ;"
+            try:
+                r = DDLParser(ddl).run()
+            except Exception:
+                continue
+            if r and any(k.startswith(key) for k in r[0]):
+                return {"ddl": ddl, "got": r, "reproduced": False}
+        return {"ddl": f"{pre} {w} ... ;", "expected": f"a sequence entry with key {key}", "reproduced": True,
+                "note": "no completion of the sequence statement reports the option"}
     return api_case(VOCAB[wi].upper(), restyle(VOCAB[wi], style, pos)) if style else {"reproduced": True, "note": "upper-case keyword not recognised in its context (lexer-level; see unit replay)"}
 
 
